@@ -615,6 +615,146 @@ impl Family for LargeInputs {
     }
 }
 
+
+/// a client that asks for TLS (which the shim offers) and then sends something else than a TLS
+/// handshake: short byte strings, record headers with every content type / version / length
+/// class with and without body, a plaintext handshake response, a real ClientHello with every
+/// byte damaged or cut short. run_on must come back with an error (or Ok) - no panic, no wedge -
+/// and must never reach the shim.
+struct TlsGarbage {
+    cases: Vec<(String, Vec<u8>)>,
+}
+fn recorded_client_hello() -> &'static Vec<u8> {
+    static HELLO: std::sync::OnceLock<Vec<u8>> = std::sync::OnceLock::new();
+    HELLO.get_or_init(|| {
+        #[derive(Debug)]
+        struct NoVerify;
+        impl rustls::client::danger::ServerCertVerifier for NoVerify {
+            fn verify_server_cert(&self, _: &rustls::pki_types::CertificateDer<'_>, _: &[rustls::pki_types::CertificateDer<'_>], _: &rustls::pki_types::ServerName<'_>, _: &[u8], _: rustls::pki_types::UnixTime) -> Result<rustls::client::danger::ServerCertVerified, rustls::Error> {
+                Ok(rustls::client::danger::ServerCertVerified::assertion())
+            }
+            fn verify_tls12_signature(&self, _: &[u8], _: &rustls::pki_types::CertificateDer<'_>, _: &rustls::DigitallySignedStruct) -> Result<rustls::client::danger::HandshakeSignatureValid, rustls::Error> {
+                Ok(rustls::client::danger::HandshakeSignatureValid::assertion())
+            }
+            fn verify_tls13_signature(&self, _: &[u8], _: &rustls::pki_types::CertificateDer<'_>, _: &rustls::DigitallySignedStruct) -> Result<rustls::client::danger::HandshakeSignatureValid, rustls::Error> {
+                Ok(rustls::client::danger::HandshakeSignatureValid::assertion())
+            }
+            fn supported_verify_schemes(&self) -> Vec<rustls::SignatureScheme> {
+                rustls::crypto::ring::default_provider().signature_verification_algorithms.supported_schemes()
+            }
+        }
+        let cfg = rustls::ClientConfig::builder().dangerous().with_custom_certificate_verifier(Arc::new(NoVerify)).with_no_client_auth();
+        let mut c = rustls::ClientConnection::new(Arc::new(cfg), rustls::pki_types::ServerName::try_from("localhost").unwrap()).unwrap();
+        let mut out = Vec::new();
+        while c.wants_write() {
+            if c.write_tls(&mut out).unwrap_or(0) == 0 {
+                break;
+            }
+        }
+        out
+    })
+}
+impl TlsGarbage {
+    fn new(quick: bool) -> Self {
+        let mut cases: Vec<(String, Vec<u8>)> = Vec::new();
+        cases.push(("nothing (end of stream)".into(), vec![]));
+        for a in 0..=255u8 {
+            cases.push((format!("one byte {:02x}", a), vec![a]));
+        }
+        if !quick {
+            for a in 0..=255u8 {
+                for b in 0..=255u8 {
+                    cases.push((format!("two bytes {:02x}{:02x}", a, b), vec![a, b]));
+                }
+            }
+        }
+        for ct in [0x00u8, 0x14, 0x15, 0x16, 0x17, 0x18, 0x19, 0x80, 0xff] {
+            for ver in [[3u8, 1], [3, 3], [3, 4], [0, 0], [2, 0], [0xff, 0xff]] {
+                for len in [0usize, 1, 4, 5, 100, 16384, 16385, 18432, 18433, 65535] {
+                    for body in [0usize, 1, 4, len.min(64), len] {
+                        if body > len {
+                            continue;
+                        }
+                        let mut v = vec![ct, ver[0], ver[1], (len >> 8) as u8, len as u8];
+                        // a plausible handshake header inside, then filler
+                        let mut b: Vec<u8> = vec![0x01, 0x00, (len.saturating_sub(4) >> 8) as u8, len.saturating_sub(4) as u8];
+                        b.resize(body.max(4), 0x41);
+                        v.extend_from_slice(&b[..body]);
+                        cases.push((format!("record header type {:#04x} version {:02x}{:02x} length {} with {} body bytes", ct, ver[0], ver[1], len, body), v));
+                    }
+                }
+            }
+        }
+        // the client goes on in plaintext
+        let caps = CAP_LONG_PASSWORD | CAP_PROTOCOL_41 | CAP_SECURE_CONNECTION | CAP_SSL;
+        let mut plain = frame(2, &handshake41(caps, 1 << 24, 0x21, b"u", &[0])).0;
+        plain.extend_from_slice(&frame(0, &with_byte(COM_QUERY, b"x")).0);
+        cases.push(("a plaintext HandshakeResponse41 and a query".into(), plain));
+        // a real ClientHello, damaged
+        let hello = recorded_client_hello().clone();
+        cases.push(("a complete ClientHello, then end of stream".into(), hello.clone()));
+        for cut in 0..hello.len() {
+            cases.push((format!("ClientHello cut after {} of {} bytes", cut, hello.len()), hello[..cut].to_vec()));
+        }
+        for pos in 0..hello.len() {
+            for val in [0x00u8, 0xff, hello[pos] ^ 1, hello[pos] ^ 0x80, hello[pos].wrapping_add(1)] {
+                if val == hello[pos] {
+                    continue;
+                }
+                let mut h = hello.clone();
+                h[pos] = val;
+                cases.push((format!("ClientHello with byte {} set to {:#04x}", pos, val), h));
+            }
+        }
+        TlsGarbage { cases }
+    }
+}
+impl Family for TlsGarbage {
+    fn name(&self) -> String {
+        "tls-requested-then-not-tls".into()
+    }
+    fn len(&self) -> u64 {
+        self.cases.len() as u64 * 2
+    }
+    fn run(&self, idx: u64, st: &mut Stats) -> Result<(), Violation> {
+        let (what, tail) = &self.cases[(idx / 2) as usize];
+        let coalesced = idx % 2 == 0;
+        st.nontrivial += 1;
+        st.bump("tls_garbage_cases");
+        let caps = CAP_LONG_PASSWORD | CAP_PROTOCOL_41 | CAP_SECURE_CONNECTION | CAP_SSL;
+        let mut stream = frame(1, &ssl_request(caps, 1 << 24, 0x21)).0;
+        let cut = stream.len();
+        stream.extend_from_slice(tail);
+        let stream = Arc::new(stream);
+        let mut sim = sim_for(&stream, if coalesced { vec![] } else { vec![cut] });
+        sim.log_ops = false;
+        sim.max_ops = 200_000;
+        let mut cfg = ConnCfg::new(behave());
+        cfg.tls = Some(crate::tlsutil::pki().server_plain.clone());
+        let o = run_conn(sim, cfg);
+        st.transitions += (o.sim.n_reads + o.sim.n_writes) as u64;
+        let what = format!("SSL request, then {} ({})", what, if coalesced { "in the same read" } else { "in its own read" });
+        if let ConnResult::Panic(l, m) = &o.res {
+            return Err(Violation::new(panic_key(l, m), format!("{}: run_on panicked at {}: {}", what, l, m)).with(json!({"after_ssl_request_hex": hex(tail)})));
+        }
+        if o.sim.budget_exhausted {
+            return Err(Violation::new("wedge", format!("{}: more than 200000 transport operations", what)));
+        }
+        if !o.log.is_empty() {
+            return Err(Violation::new("served-without-tls", format!("{}: the shim was called ({}) although no TLS session was established", what, cb_short(&o.log[0].1))));
+        }
+        if o.res.is_ok() {
+            return Err(Violation::new("broken-upgrade-reported-ok", format!("{}: run_on returned Ok", what)));
+        }
+        st.bump("outcome_err");
+        Ok(())
+    }
+    fn describe(&self, idx: u64) -> J {
+        let (what, tail) = &self.cases[(idx / 2) as usize];
+        json!({"after_the_ssl_request": what, "bytes_hex": hex(&tail[..tail.len().min(80)]), "coalesced_with_ssl_request": idx % 2 == 0})
+    }
+}
+
 pub fn build(quick: bool) -> Check {
     let mut families: Vec<Box<dyn Family>> = Vec::new();
     for l in 1..=(if quick { 5 } else { 7 }) {
@@ -653,6 +793,7 @@ pub fn build(quick: bool) -> Check {
             headers: vec![0, hs.len()],
         }));
     }
+    families.push(Box::new(TlsGarbage::new(quick)));
     families.push(Box::new(LenencExtremes));
     families.push(Box::new(LargeInputs::new(if quick { &[MAXP, MAXP + 7] } else { &[MAXP - 1, MAXP, MAXP + 7, 2 * MAXP, 2 * MAXP + 7] })));
     families.push(Box::new(FragmentIds {
@@ -661,7 +802,7 @@ pub fn build(quick: bool) -> Check {
     Check {
         id: "C20",
         level: "model_checking",
-        rule: "client byte strings: all raw strings of length <= 5/7 over a 13-symbol alphabet of command and marker bytes (after handshake+PREPARE, and as the handshake itself); all framed payloads of length <= 2/3 over all 256 byte values; COM_STMT_EXECUTE parameter blocks (4 bitmaps x 3 flags x 256 type codes x unsigned x values of <= 3 bytes over 6 marker bytes, with and without a preceding valid bind; 1/2/9 declared parameters); every prefix of well-formed bind and reuse blocks x NULL bitmaps x pending long data x earlier bind; for 5 valid conversations and 3 handshake forms every single-byte substitution by every value (this includes every sequence id 0..255 and every length-field value on every packet), every truncation, deletion and duplication; two-fragment requests with every pair of fragment ids from a boundary set; variable-length parameter values behind every length-prefix form announcing 0..2^64-1 bytes (and every length byte for the temporal types) with 0..300 bytes present; requests of 2^24-1 bytes and more, well-formed or with a missing / lying continuation, under a read boundary at every position around each packet header and the end of the stream. Oracle: run_on returns (Ok or Err) without panicking and within 200000 transport operations; flushed output is well-framed. Non-trivial = input differs from a valid conversation.".into(),
+        rule: "client byte strings: all raw strings of length <= 5/7 over a 13-symbol alphabet of command and marker bytes (after handshake+PREPARE, and as the handshake itself); all framed payloads of length <= 2/3 over all 256 byte values; COM_STMT_EXECUTE parameter blocks (4 bitmaps x 3 flags x 256 type codes x unsigned x values of <= 3 bytes over 6 marker bytes, with and without a preceding valid bind; 1/2/9 declared parameters); every prefix of well-formed bind and reuse blocks x NULL bitmaps x pending long data x earlier bind; for 5 valid conversations and 3 handshake forms every single-byte substitution by every value (this includes every sequence id 0..255 and every length-field value on every packet), every truncation, deletion and duplication; two-fragment requests with every pair of fragment ids from a boundary set; variable-length parameter values behind every length-prefix form announcing 0..2^64-1 bytes (and every length byte for the temporal types) with 0..300 bytes present; requests of 2^24-1 bytes and more, well-formed or with a missing / lying continuation, under a read boundary at every position around each packet header and the end of the stream; an SSL request (to a shim that offers TLS) followed by anything but a TLS handshake: every 1- (thorough: 2-) byte string, TLS record headers of every content type / version / length class with partial bodies, a plaintext handshake response, a recorded ClientHello with every byte damaged five ways and every truncation - the shim must never be reached. Oracle: run_on returns (Ok or Err) without panicking and within 200000 transport operations; flushed output is well-framed. Non-trivial = input differs from a valid conversation.".into(),
         assumptions: vec![
             "random bytes are not used as a deciding step (sampling is outside this family)".into(),
             "the shim iterates all parameters and reads them with into_inner(); the panicking From<Value> conversions are the shim author's calls, not run_on's".into(),
@@ -670,6 +811,6 @@ pub fn build(quick: bool) -> Check {
         exhaustive: true,
         caps_hit: vec![],
         families,
-        required: vec!["length_prefix_cases", "large_inputs", "outcome_ok", "outcome_err", "executes_reaching_the_shim", "sequence_id_mutations", "length_field_mutations", "out_of_order_fragments", "block_prefixes"],
+        required: vec!["tls_garbage_cases", "length_prefix_cases", "large_inputs", "outcome_ok", "outcome_err", "executes_reaching_the_shim", "sequence_id_mutations", "length_field_mutations", "out_of_order_fragments", "block_prefixes"],
     }
 }
